@@ -284,3 +284,52 @@ def parallel_engine(prop, tier, seed, out, known):
 
 
 ENGINES["C19"].append(parallel_engine)
+
+
+# ---------------------------------------------------------------------------------------------------------------
+# Plain unit-test replays of the repaired findings F1-F3 (regressions/tests/findings.rs): fail if one returns
+# ---------------------------------------------------------------------------------------------------------------
+REGRESSION_TESTS = {"C07": "f1_trace_panic_leaves_no_stale_tracing_counter", "C14": "f2_new_cyclic_with_panicking_automatic_collection_touches_no_value", "C12": "f3_collection_started_from_rc_finalizer_is_observable"}
+
+
+def regressions_engine(prop, tier, seed, out, known):
+    t0 = time.time()
+    name = REGRESSION_TESTS[prop]
+    rdir = os.path.join(driver.ROOT, "regressions")
+    shutil.copy("/repo/Cargo.lock", os.path.join(rdir, "Cargo.lock"))
+    e = driver.env_offline()
+    e["CARGO_TARGET_DIR"] = os.path.join(driver.BUILD, "regressions")
+    p = subprocess.run(["cargo", "test", "--offline", "--test", "findings", name, "--", "--exact", "--test-threads", "1"], cwd=rdir, env=e, stdout=subprocess.PIPE, stderr=subprocess.STDOUT, text=True)
+    ok = ("test %s ... ok" % name) in p.stdout
+    out.runs.append({"config": "regressions crate (default features + weak-ptrs, cleaners)", "lens": "regression replay", "lens_args": name, "states": 1, "transitions": 1, "executions": 1, "fixpoint": True,
+                     "cut_reason": None, "samples": ["plain unit test replaying the counterexample of a repaired finding without the explorer: " + name], "vacuity": {}, "scope": {}, "wall_s": round(time.time() - t0, 1)})
+    if not ok:
+        if "error: could not compile" in p.stdout or "error[" in p.stdout:
+            out.machinery.append("regression replay crate does not compile: " + p.stdout[-400:])
+            return {}
+        v = {"property": prop, "predicate": "P-regression", "message": "the repaired finding replayed by regressions/tests/findings.rs::%s is back: %s" % (name, " | ".join([l for l in p.stdout.splitlines() if "panicked" in l][:2]))}
+        k = driver.match_known(prop, v, known)
+        if k:
+            out.known.append("%s (%s)" % (k.get("id", "?"), v["message"]))
+        else:
+            os.makedirs(driver.REPLAYS, exist_ok=True)
+            path = os.path.join(driver.REPLAYS, "%s-regression.json" % prop)
+            json.dump({"property": prop, "engine": "regression", "test": name, "violations": [v], "how_to_replay": "cd /verif/regressions && cargo test --offline --test findings " + name}, open(path, "w"), indent=1)
+            out.violations.append((path, "P-regression " + v["message"]))
+    return {}
+
+
+for _p in REGRESSION_TESTS:
+    ENGINES.setdefault(_p, []).append(regressions_engine)
+
+_replay_prev2 = replay
+
+
+def replay(rp):  # noqa: F811
+    if rp.get("engine") == "regression":
+        o = driver.Outcome()
+        regressions_engine(rp["property"], "quick", 0, o, [])
+        for p, m in o.violations:
+            print("VIOLATION property=%s replay=%s\n  %s" % (rp["property"], p, m))
+        return 1 if o.violations else 0
+    return _replay_prev2(rp)
